@@ -3,6 +3,7 @@ package harness
 import (
 	"encoding/json"
 	"fmt"
+	"os"
 	"sort"
 	"time"
 
@@ -126,7 +127,11 @@ func ExploreJob(prop string, spec ExploreSpec, cost int) Job {
 					r.CapsHit = append(r.CapsHit, "deadline before "+fmt.Sprintf("V%d %s", v, b))
 					continue
 				}
-				res := explore.Explore(sc, v, b, explore.Config{Cache: spec.Cache, DetCheck: 3, Deadline: jc.Deadline, MaxExecs: spec.MaxExecs})
+				det := 3
+				if x := os.Getenv("VERIF_DETCHECK"); x != "" {
+					fmt.Sscan(x, &det)
+				}
+				res := explore.Explore(sc, v, b, explore.Config{Cache: spec.Cache, DetCheck: det, Deadline: jc.Deadline, MaxExecs: spec.MaxExecs})
 				r.Evaluations += res.Executions
 				r.Traces += res.Complete
 				r.Transitions += res.Steps
